@@ -166,8 +166,35 @@ class Ctx:
                 if extra:
                     self.broken.append('proof-gate: theorem %s depends on axioms not in the allow-list: %s' % (name, extra))
                     ok = False
+        if ok and self.tier == 'thorough':
+            ok = self.coqchk(props_file, allow)
         self.discharged = len(names) if ok else 0
         return ok
+
+    def coqchk(self, props_file, allow):
+        """thorough tier: the independent checker re-checks Props/<ID>.vo and everything it depends on and reports the axioms and
+        any switched-off kernel check in the whole context"""
+        mod = 'DV.' + props_file[:-2].replace('/', '.')
+        with Lock('coq'):
+            rc, out = sh(['coqchk', '-o', '-silent', '-Q', '.', 'DV', mod], cwd=COQ, timeout=3000)
+        summary = out[out.find('CONTEXT SUMMARY'):] if 'CONTEXT SUMMARY' in out else out[-600:]
+        self.cov['coqchk'] = ' '.join(summary.split())[:600]
+        bad = []
+        if rc != 0 or 'CONTEXT SUMMARY' not in out:
+            bad.append('coqchk failed: %s' % out.strip()[-300:])
+        else:
+            for title in ('Axioms', 'Constants/Inductives relying on type-in-type', 'Constants/Inductives relying on unsafe (co)fixpoints',
+                          'Inductives whose positivity is assumed'):
+                m = re.search(r'\* ' + re.escape(title) + r':(.*?)(?=\n\* |\Z)', summary, re.S)
+                body = m.group(1).strip() if m else '?'
+                if body != '<none>':
+                    items = [x.strip() for x in body.split('\n') if x.strip()]
+                    extra = [x for x in items if x.split()[0] not in allow] if title == 'Axioms' else items
+                    if extra:
+                        bad.append('coqchk: %s: %s' % (title, extra[:5]))
+        for b in bad:
+            self.broken.append('proof-gate: ' + b)
+        return not bad
 
     # ---------------------------------------------------------------- implementation
     def build_harness(self, release=False):
